@@ -377,3 +377,22 @@ package protocol
 //@   loop#1 invariant 0 <= i && i <= 16 && argLen == len(argId) && argIndex == 16 - argLen && forall(k, 0, i, lockId[k] == ite(k < argIndex, 0, argId[k - argIndex]))
 //@   ensures C14.text.id.exact: implies(len(argId) == 16, forall(k, 0, 16, lockId[k] == argId[k]))
 //@   ensures C14.text.id.padded: implies(len(argId) < 16, forall(k, 0, 16, lockId[k] == ite(k < 16 - len(argId), 0, argId[k - (16 - len(argId))])))
+
+// C13: the readers of a stored value's inner structure (array elements, key/value pairs, property entries) never index
+// past the value, whatever lengths its bytes announce (the value is the bytes a client sent, kept as they came)
+//@ func (*LockResultCommandData).GetArrayValue
+//@   requires self != nil && implies(self.DataFlag&0x10 != 0, len(self.Data) >= 8)
+//@   safe C13
+//@   loop#1 invariant index >= 6 && index <= len(self.Data) + 65543 && values != nil
+//@ func (*LockResultCommandData).GetKVValue
+//@   requires self != nil && implies(self.DataFlag&0x10 != 0, len(self.Data) >= 8)
+//@   safe C13
+//@   loop#1 invariant index >= 6 && index <= len(self.Data) + 65543
+//@ func (*LockResultCommandData).GetDataProperty
+//@   requires self != nil
+//@   safe C13
+//@   loop#1 invariant index >= 0 && index <= propertyLen && len(self.Data) >= 8 && propertyLen <= len(self.Data) - 8
+//@ func (*LockResultCommandData).GetDataProperties
+//@   requires self != nil
+//@   safe C13
+//@   loop#1 invariant index >= 0 && index <= propertyLen && len(self.Data) >= 8 && propertyLen <= len(self.Data) - 8
